@@ -31,8 +31,9 @@ def csys_for(d):
     raise core.MachineryError("no composite system for d=%d" % d)
 
 
-def build(T, d, m, para, cellval):
-    """Object of type T whose entry at `cell` is cellval(cell)."""
+def build(T, d, m, para, cellval, layout="C"):
+    """Object of type T whose entry at `cell` is cellval(cell).  layout: memory layout of the matrices handed to the
+    constructor - "C" (row-major), "F" (column-major) or "T" (a transposed view of the transposed matrix): the same values."""
     from quara.objects.state import State
     from quara.objects.povm import Povm
     from quara.objects.gate import Gate
@@ -44,10 +45,12 @@ def build(T, d, m, para, cellval):
         return State(c, np.array([cellval((0, r, 0)) for r in range(n)], dtype=np.float64), **kw)
     if T == "povm":
         return Povm(c, [np.array([cellval((x, r, 0)) for r in range(n)], dtype=np.float64) for x in range(m)], **kw)
+    def mem(a_):
+        return a_ if layout == "C" else np.asfortranarray(a_) if layout == "F" else np.ascontiguousarray(a_.T).T
     if T == "gate":
-        return Gate(c, np.array([[cellval((0, r, cc)) for cc in range(n)] for r in range(n)], dtype=np.float64), **kw)
+        return Gate(c, mem(np.array([[cellval((0, r, cc)) for cc in range(n)] for r in range(n)], dtype=np.float64)), **kw)
     if T == "mprocess":
-        return MProcess(c, [np.array([[cellval((x, r, cc)) for cc in range(n)] for r in range(n)], dtype=np.float64)
+        return MProcess(c, [mem(np.array([[cellval((x, r, cc)) for cc in range(n)] for r in range(n)], dtype=np.float64))
                             for x in range(m)], **kw)
 
 
@@ -131,6 +134,17 @@ def replay_object(chk, case, rng, grad_budget):
         back = np.asarray(obj2.to_var()).ravel()
         if len(back) != nv or not np.array_equal(back, vlab):
             bad("var_roundtrip", "to_var(generate_from_var(v)) != v")
+        # the memory layout of the arrays an object was built from is not part of its value
+        if T in ("gate", "mprocess"):
+            for lay in ("F", "T"):
+                try:
+                    ob_l = build(T, d, m, para, label, layout=lay)
+                    if not np.array_equal(np.asarray(ob_l.to_var()).ravel(), var) or not np.array_equal(np.asarray(ob_l.to_stacked_vector()).ravel(), sv):
+                        bad("memory_layout", "to_var / to_stacked_vector of an object built from %s arrays differ from those of the same matrices in row-major memory" % ("column-major" if lay == "F" else "transposed-view"))
+                        break
+                except Exception as e:
+                    bad("memory_layout:exception", "%r" % e)
+                    break
         # the parametrisation named in the call wins over the template's: a template built with the OTHER flag, asked for
         # this flag explicitly, gives the same object as a template of this flag
         try:
